@@ -72,6 +72,7 @@ Done(th, res, owe) == /\ pend' = [pend EXCEPT ![th].lin = TRUE, ![th].res = res]
                       /\ owed' = [owed EXCEPT ![th] = @ \cup owe]
 B(b) == IF b THEN "T" ELSE "F"
 Num(n) == ToString(n)
+TakenBy(th) == "taken" \o ToString(th)     \* refcount handle state: thread th holds the handle between its two steps
 
 Lin(th) ==
   /\ pend[th].op # "none" /\ ~pend[th].lin
@@ -130,12 +131,19 @@ Lin(th) ==
                          ELSE hs' = [hs EXCEPT ![x] = "live"] /\ count' = count + 1)
             /\ Done(th, "ok", {}) /\ UNCHANGED <<disposed, held, dropped, rejected, primary>>
        [] p.op = "ddep" ->
-            (IF hs[x] = "live"
-             THEN /\ hs' = [hs EXCEPT ![x] = "disposed"] /\ count' = count - 1
-                  /\ IF count - 1 = 0 /\ primary /\ ~disposed
-                     THEN disposed' = TRUE /\ Done(th, "ok", {U})
-                     ELSE UNCHANGED disposed /\ Done(th, "ok", {})
-             ELSE Done(th, "ok", {}) /\ UNCHANGED <<hs, count, disposed>>)
+            \* two linearization points, as in the code (the handle's own lock, then the parent's): first the caller TAKES the
+            \* handle - from then on any other dispose of the same handle is a no-op and may return at once - and only then
+            \* does it RELEASE the reference (count - 1, and the resource if it was the last one after the primary dispose).
+            \* (Found by the 3-thread thorough tier: two threads disposing the same handle while a third disposes the primary.)
+            (CASE hs[x] = "live" ->
+                    /\ hs' = [hs EXCEPT ![x] = TakenBy(th)]
+                    /\ UNCHANGED <<count, disposed, pend, owed>>
+               [] hs[x] = TakenBy(th) ->
+                    /\ hs' = [hs EXCEPT ![x] = "disposed"] /\ count' = count - 1
+                    /\ IF count - 1 = 0 /\ primary /\ ~disposed
+                       THEN disposed' = TRUE /\ Done(th, "ok", {U})
+                       ELSE UNCHANGED disposed /\ Done(th, "ok", {})
+               [] OTHER -> Done(th, "ok", {}) /\ UNCHANGED <<hs, count, disposed>>)
             /\ UNCHANGED <<held, dropped, rejected, primary>>
   /\ queued' = CASE pend[th].op = "dispose" /\ Kind = "scheduled" -> queued + 1
                   [] pend[th].op = "run" -> 0
@@ -183,7 +191,7 @@ ActionIffDisposed == (Kind \in {"disposable", "scheduled"} /\ Quiet) => (dcount[
 OnlyOnScheduler == Kind = "scheduled" => \A t \in Threads : (pend[t].op = "dispose" => owed[t] = {})
 \* C27: the resource is released only after the primary dispose and every live dependent
 RefCountInv == Kind = "refcount" =>
-                 /\ count = Cardinality({h \in Handles : hs[h] = "live"})
+                 /\ count = Cardinality({h \in Handles : hs[h] = "live" \/ \E t \in Threads : hs[h] = TakenBy(t)})
                  /\ disposed => (primary /\ count = 0)
                  /\ (dcount[U] = 1) => disposed
                  /\ (primary /\ count = 0) => disposed
